@@ -106,6 +106,15 @@ def make_read(rng, k, ads, C, side=1):
     if rng.random() < 0.12:
         body = body.lower() if rng.random() < 0.5 else "".join(rng.choice((c, c.lower())) for c in body)
     seq = body
+    if C.get("_tie") and ads:
+        # two complete, error-free adapters of equal length: which one is removed is decided by the order
+        present = [a for a in ads if rng.random() < 0.7] or ads[:1]
+        left = "".join(a["seq"] for a in present if a["opt"] == "g" and a.get("restr") == "anchor") or \
+               "".join(a["seq"] for a in present if a["opt"] == "g")[:7]
+        right = "".join(a["seq"] for a in present if a["opt"] == "a" and a.get("restr") != "anchor")[:7] + \
+                "".join(a["seq"] for a in present if a["opt"] == "a" and a.get("restr") == "anchor")[:7]
+        seq = left + body.upper() + right
+        ads = []
     if ads and rng.random() < 0.8:
         ad = pick(rng, ads)
         parts = adapter_seqs(ad)
@@ -172,21 +181,26 @@ SCENARIOS = {
             dict(action="none", times=2), dict(fmt="fasta", action="mask")],
     "C17": [dict(linked=True, times=2, n_ads=3), dict(linked=True, times=3, n_ads=2), dict(minlen="8", maxlen="18"),
             dict(revcomp=True, times=2), dict(paired=True), dict(linked=True, revcomp=True), dict(duntrim=True), dict(maxn=(0, 1, "0"))],
-    "C09": [dict(linked=True, times=2, n_ads=3), dict(n_ads=4, times=3), dict(n_ads=3, action="mask", times=2),
+    "C09": [dict(tie_order=True, index=True, times=1, action="trim", error_rate=0.1, overlap=3), dict(tie_order=True, index=True, times=1, action="mask"),
+            dict(tie_order=True, times=2),
+            dict(linked=True, times=2, n_ads=3), dict(n_ads=4, times=3), dict(n_ads=3, action="mask", times=2),
             dict(n_ads=3, action="lowercase", times=3), dict(linked=True, action="retain"), dict(paired=True, times=2, n_ads=2),
-            dict(n_ads=2, same_family=True), dict(n_ads=3, same_family=True, times=2), dict(index=True, n_ads=3)],
-    "C16": [dict(revcomp=True, paired=True), dict(revcomp=True, times=2), dict(revcomp=True, error_rate=0.7, overlap=1),
+            dict(n_ads=2, same_family=True), dict(n_ads=3, same_family=True, times=2)],
+    "C16": [dict(revcomp=True, cores=2, buffer_size=300, n_reads=16), dict(revcomp=True, cores=3, buffer_size=250, n_reads=18, paired=True),
+            dict(revcomp=True, paired=True), dict(revcomp=True, times=2), dict(revcomp=True, error_rate=0.7, overlap=1),
             dict(revcomp=True, action="mask"), dict(revcomp=True, paired=True, action="lowercase"), dict(revcomp=True, same_family=True, n_ads=2)],
-    "C05": [dict(paired=True, pairads=True), dict(paired=True, pairfilter="both", minlen="8:"), dict(paired=True, pairfilter="first", maxlen=":14"),
+    "C05": [dict(paired=True, pairads=True), dict(paired=True, interleaved=True, only_r2=True, untrimout=True), dict(paired=True, interleaved=True, untrimout=True),
+            dict(paired=True, interleaved=True, minlen="8", tooshortout=True), dict(paired=True, interleaved=True, only_r1=True, untrimout=True), dict(paired=True, pairfilter="both", minlen="8:"), dict(paired=True, pairfilter="first", maxlen=":14"),
             dict(paired=True, only_r2=True, duntrim=True), dict(paired=True, only_r2=True, untrimout=True), dict(paired=True, pairfilter="both", duntrim=True),
-            dict(paired=True, pairads=True, same_r1=True, demux="normal"), dict(paired=True, demux="combi"), dict(paired=True, untrimout=True, pairfilter="both")],
+            dict(paired=True, pairads=True, same_r1=True, demux="normal", n_ads=2), dict(paired=True, pairads=True, same_r1=True, n_ads=3, rename="{id} a={r1.adapter_name} b={r2.adapter_name}"), dict(paired=True, demux="combi"), dict(paired=True, untrimout=True, pairfilter="both")],
     "C11": [dict(maxee="1", maxaer="0.05"), dict(paired=True, pairfilter="both", duntrim=True), dict(paired=True, only_r2=True, duntrim=True),
             dict(action="lowercase", maxn=(1, 1, "1")), dict(minlen="8", maxlen="14", maxn=(0, 1, "0"), casava=True),
             dict(paired=True, pairfilter="both", dtrim=True), dict(untrimout=True, minlen="5"), dict(paired=True, pairfilter="first", untrimout=True)],
     "C15": [dict(demux="normal", times=2, n_ads=3), dict(demux="combi", paired=True, times=2), dict(demux="normal", casava=True),
             dict(demux="normal", paired=True, untrimout=True), dict(demux="normal", duntrim=True), dict(demux="combi", paired=True, duntrim=True),
             dict(demux="normal", paired=True, casava=True, minlen="6")],
-    "C04": [dict(paired=True, info=True), dict(times=2, n_ads=3), dict(times=3, paired=True), dict(demux="combi", paired=True, duntrim=True),
+    "C04": [dict(polya=True, cores=2, buffer_size=250, n_reads=18), dict(polya=True, paired=True, cores=3, buffer_size=400, n_reads=16),
+            dict(revcomp=True, cores=2, buffer_size=300, n_reads=16), dict(paired=True, info=True), dict(times=2, n_ads=3), dict(times=3, paired=True), dict(demux="combi", paired=True, duntrim=True),
             dict(maxaer="0.05"), dict(polya=True), dict(paired=True, polya=True, q="10")],
     "C10": [dict(paired=True, len1=8, len2=0), dict(paired=True, len1=10), dict(nextseq=20, q="20"), dict(nextseq=20, q="10", paired=True, Q="20"),
             dict(cut1=[30], lengthtag="length="), dict(polya=True, len1=10, trimn=True), dict(cut1=[3, -2], q="10,10")],
@@ -246,6 +260,13 @@ def _random_config(rng, focus, S):
             if extra[0].get("linked"):
                 ads = extra + ads[1:] if len(ads) > 1 else extra + make_adapters(rng, f, 1, 1, False, named, back_only=True)
                 break
+    if S.get("tie_order"):
+        # equally long adapters of different kinds, at most one anchored 5' and one anchored 3' (so that no
+        # index is built even when indexing is allowed): full occurrences tie on score and errors
+        ads = [dict(opt="g", seq="TCGTATG", restr="anchor", name=None), dict(opt="a", seq="CCGGAAT", restr=None, name=None),
+               dict(opt="a", seq="CTTGTAC", restr="anchor", name=None), dict(opt="g", seq="GGTTCCA", restr=None, name=None)]
+        rng.shuffle(ads)
+        ads = ads[: rng.choice((3, 4))]
     if S.get("same_family"):
         # adapters that are near-identical: equal scores, different error counts, ties
         base = pick(rng, ADAPTERS)
@@ -290,6 +311,8 @@ def _random_config(rng, focus, S):
             C["overlap"] = S["overlap"]
         if S.get("index"):
             C["index"] = True
+        if S.get("tie_order"):
+            C["_tie"] = True
     # post-adapter modifications
     if p(0.4 if heavy else 0.1):
         C["polya"] = True
@@ -366,8 +389,10 @@ def _random_config(rng, focus, S):
         C["info"] = has_ads
     if f == "C10" and p(0.7):
         C["perm_seed"] = rng.randrange(10**6)
+    if S.get("only_r1") and C["paired"]:
+        C["ads2"] = []
     for k in ("minlen", "maxlen", "maxn", "maxee", "maxaer", "casava", "pairfilter", "polya", "q", "Q", "nextseq", "cut1", "len1", "len2",
-              "lengthtag", "trimn", "info"):
+              "lengthtag", "trimn", "info", "interleaved", "tooshortout", "rename", "cores", "buffer_size", "n_reads"):
         if k in S:
             C[k] = S[k]
     if has_ads and demux == "none" and any(k in S for k in ("duntrim", "dtrim", "untrimout")):
@@ -425,13 +450,21 @@ def drive(ctx, focus, n_runs, want, reads_per_run=(5, 9), config_hook=None):
         tries += 1
         scen = pick(rng, SCENARIOS[focus]) if focus in SCENARIOS and rng.random() < 0.6 else None
         C = random_config(rng, focus, scen)
+        if focus in ("C04", "C16", "C20", "C15") and rng.random() < 0.3:
+            C["cores"] = rng.choice((2, 3))
+            C["buffer_size"] = rng.choice((300, 500, 900))
+            C["sched_seed"] = rng.randrange(10**6)
+            C["sched_weights"] = rng.choice((None, {"W0": 0.05}, {"W1": 0.05}, {"M": 0.1}, {"W0": 5.0}))
         if config_hook:
             C = config_hook(rng, C)
             if C is None:
                 continue
-        r1, r2 = make_inputs(rng, C, rng.randint(*reads_per_run))
+        r1, r2 = make_inputs(rng, C, C.pop("n_reads", None) or rng.randint(*reads_per_run))
+        if C.get("cores", 1) > 1 and "sched_seed" not in C:
+            C["sched_seed"] = rng.randrange(10**6)
+            C["sched_weights"] = rng.choice((None, {"W0": 0.05}, {"W1": 0.05}, {"M": 0.1}, {"W0": 5.0}))
         ev, sampler, res = GR.observe_run(C, r1, r2, os.path.join(ctx.scratch, "run"))
-        ev["C"] = {k: v for k, v in C.items() if k not in ("ads1", "ads2")}
+        ev["C"] = {k: v for k, v in C.items() if k not in ("ads1", "ads2", "sched_weights")}
         ev["C"]["ads1"] = [GR.adapter_arg(a) for a in C.get("ads1", [])]
         ev["C"]["ads2"] = [GR.adapter_arg(a) for a in C.get("ads2", [])]
         if "failed" in ev:
